@@ -139,6 +139,6 @@ Definition limits_ok : bool :=
 
 (* the loop shapes this file models, as re-read from the adapter sources by the translator *)
 Definition adapters_shape_ok : bool :=
-  TCP_RECEIVE_LOOP_OK && FRAMED_RECEIVE_LOOP_OK && FRAMED_SEND_LOCKED && WS_RECEIVE_LOOP_OK &&
+  TCP_RECEIVE_LOOP_OK && FRAMED_RECEIVE_LOOP_OK && FRAMED_SEND_LOCKED && FRAMED_SEND_LOOP_OK && TCP_SEND_LOOP_OK && WS_RECEIVE_LOOP_OK &&
   WS_SEND_UNDER_STATE_LOCK && UDP_RECEIVE_NEVER_DISCONNECTS && UDP_PENDING_ALWAYS_READY &&
   KEEPALIVE_SOCKET_ALWAYS_FORGOTTEN && READY_TO_WRITE_CONST_TRUE.
